@@ -29,8 +29,41 @@ func init() {
 func runCFGVERBATIM(c *Ctx) {
 	P := c.P
 	fields := map[string]bool{"marshal": true, "unmarshal": true, "keyOrder": true, "keyLayer": true}
-	var ok func(v ssa.Value, field string, d int) (bool, string)
-	ok = func(v ssa.Value, field string, d int) (bool, string) {
+	// env: inside a helper followed from a call site, the helper's parameters stand for the call's arguments
+	type cfgEnv struct {
+		args map[*ssa.Parameter]ssa.Value
+		up   *cfgEnv
+	}
+	var okIn func(v ssa.Value, field string, d int, env *cfgEnv) (bool, string)
+	// helperResult: result #idx of a static call of a repository helper is the helper's idx-th operand on every return
+	helperResult := func(call *ssa.Call, idx int, field string, d int, env *cfgEnv) (bool, string, bool) {
+		callee := ir.Callee(call.Common())
+		if callee == nil || !fxOwnFunc(callee) || call.Common().IsInvoke() || len(callee.FreeVars) != 0 || len(callee.Params) != len(call.Common().Args) {
+			return false, "", false
+		}
+		sub := &cfgEnv{args: map[*ssa.Parameter]ssa.Value{}, up: env}
+		for i, q := range callee.Params {
+			sub.args[q] = call.Common().Args[i]
+		}
+		var ds []string
+		for _, r := range ir.Returns(callee) {
+			if idx >= len(r.Results) {
+				return false, "", false
+			}
+			k, d2 := okIn(r.Results[idx], field, d+1, sub)
+			if !k {
+				return false, d2 + " (returned by " + callee.Name() + ")", true
+			}
+			ds = append(ds, d2)
+		}
+		if len(ds) == 0 {
+			return false, "", false
+		}
+		return true, callee.Name() + "(…) returning " + strings.Join(uniq(ds), " / "), true
+	}
+	ok := func(v ssa.Value, field string, d int) (bool, string) { return okIn(v, field, d, nil) }
+	okIn = func(v ssa.Value, field string, d int, env *cfgEnv) (bool, string) {
+		ok := func(v ssa.Value, field string, d int) (bool, string) { return okIn(v, field, d, env) }
 		if d > 6 {
 			return false, "too deep"
 		}
@@ -89,12 +122,28 @@ func runCFGVERBATIM(c *Ctx) {
 				return true, "result of " + callee.Name()
 			}
 			if callee := ir.Callee(x.Common()); callee != nil {
+				if k, d2, decided := helperResult(x, 0, field, d, env); decided {
+					return k, d2
+				}
 				return false, "the result of " + callee.Name() + "(…)"
+			}
+			return false, "a call result"
+		case *ssa.Extract:
+			if call, isCall := x.Tuple.(*ssa.Call); isCall {
+				if k, d2, decided := helperResult(call, x.Index, field, d, env); decided {
+					return k, d2
+				}
 			}
 			return false, "a call result"
 		case *ssa.MakeClosure:
 			return false, "a closure (" + x.Fn.Name() + ")"
 		case *ssa.Parameter:
+			if env != nil {
+				if a, has := env.args[x]; has {
+					return okIn(a, field, d+1, env.up)
+				}
+				return false, "parameter " + x.Name() + " of a helper"
+			}
 			return true, "parameter " + x.Name()
 		}
 		return false, pathDesc(ir.Sym(v))
